@@ -21,8 +21,48 @@ SPECIAL = {
 }
 
 
+def single(rnd: str, a: str) -> int:
+    """One change per sub-agent, labelled <a>; same brief otherwise."""
+    import glob
+    for raw in open("/verif/properties.jsonl"):
+        d = json.loads(raw)
+        pid = d["id"]
+        prev = []
+        for path in sorted(glob.glob(f"/verif/seeded/{pid}-*/meta.json")):
+            m = json.load(open(path))
+            prev.append(f"- {m['what']} (needs: {m['needs']})")
+        wt = f"/tmp/w{rnd}-{pid}"
+        text = f"""You are helping test a verification framework for the Python library aiomysensors (asyncio client for MySensors gateways). Work ONLY inside the git worktree {wt} (source: {wt}/src/aiomysensors, tests: {wt}/tests). Do NOT read or touch /verif or /repo.
+
+PROPERTY {pid}: {d['title']}
+
+STATEMENT: {d['statement']}
+
+QUANTIFIED OVER: {d['quantifier']['text']}
+
+ALREADY TRIED BY OTHERS (all of these are detected by now; the detector evidently covers these dimensions well) - find a dimension or mechanism NOT on this list:
+""" + "\n".join(prev) + f"""
+
+YOUR JOB: devise ONE NEW, realistic code change (call it {a}) to the library source that BREAKS the property AS STATED while the library still imports and the ENTIRE existing test suite still passes. Think about which hidden dimension the earlier attempts have NOT exercised (read them carefully, list the dimensions they cover, then pick something orthogonal), while remaining a genuine violation inside the statement's domain and its quantifier - a reviewer must agree that the statement as written is violated, not merely some stricter reading of it. The change must need something specific to manifest (a particular interleaving, a fault at a particular point, a multi-step sequence of operations, an unusual input, or two cooperating sites that each look fine alone), not something ordinary use would expose at once. It must look like a plausible maintainer edit (refactoring slip, 'optimisation', wrong boundary, misplaced line, over-eager validation, caching, a new 'feature'); prefer mechanisms that arise naturally from Python/asyncio/marshmallow/aiofiles/aiomqtt/awesomeversion semantics or from the interaction of two code sites, over magic constants.
+{SPECIAL.get(pid, '')}
+
+Run tests with:  cd {wt} && PYTHONPATH={wt}/src /venv/bin/python -m pytest -q -p no:cacheprovider --no-cov -x --timeout=120   (all 273 must pass with the change applied).
+
+Write into {wt}/out/ (create it): {a}.diff (`git diff` of the change, files under src/ only, must `git apply` on a clean checkout); demo_{a}.py (standalone; run as `PYTHONPATH=<src dir> /venv/bin/python demo_{a}.py`; uses only public behaviour of the library; prints OK and exits 0 on the clean worktree; exits 1 and prints what went wrong with the change applied; fast, deterministic, no network, no real long waits); notes.md (what it breaks, which clause of the statement, what it needs to manifest, and that you ran tests-with-change = pass, demo-with-change = fail, demo-without-change = pass).
+
+You have about 12 minutes: pick an idea quickly, do not over-explore. Leave the worktree source clean at the end (`git checkout -- src`; git status shows only out/). Report a two-line summary of {a}: what it breaks and what it needs to manifest.
+"""
+        open(f"/tmp/seed{rnd}-{pid}.txt", "w").write(text)
+        if not os.path.isdir(wt):
+            subprocess.run(["git", "-C", "/repo", "worktree", "add", "-q", "--detach", wt, "HEAD"], check=True)
+    print("ok")
+    return 0
+
+
 def main() -> int:
     rnd, letters = sys.argv[1], sys.argv[2]
+    if "," in letters or len(letters) != 2:  # rounds after the alphabet ran out: one change per agent, any label (e.g. AA)
+        return single(rnd, letters.split(",")[0])
     a, b = letters[0], letters[1]
     for raw in open("/verif/properties.jsonl"):
         d = json.loads(raw)
